@@ -45,6 +45,9 @@ def resolve(function: ValidResolvers, params: Dict, mappings: Dict[str, Dict], c
     if isinstance(function, (int, float, date, IPv4Network, IPv6Network)):
         return str(function)
 
+    if isinstance(function, (bytes, bytearray)):
+        return str(b64encode(function), "utf-8")
+
     if isinstance(function, list):
         result = []
         for entry in function:
